@@ -11,7 +11,7 @@ from __future__ import annotations
 import asyncio
 import itertools
 
-from .. import gens, histories, spec
+from .. import codedict, gens, histories, spec
 from ..harness import VERSIONS, Stepper, exc_info, is_library_error, new_gateway
 from ..harness import run as arun
 from ..lscheck import execute, shrink
@@ -564,7 +564,7 @@ def run(ctx) -> None:
                     index += 1
                     if ctx.mine(index):
                         arun(interrupted_step_case(ctx, version, trigger, how, outcome))
-                for seconds in (0.5, 29, 31, 61, 301, 3601, 90000):
+                for seconds in codedict.durations():
                     index += 1
                     if ctx.mine(index):
                         slow_reply_case(ctx, version, trigger, seconds)
